@@ -489,11 +489,11 @@ fn huge_binary_strategy() -> impl Strategy<Value = Forward> {
 }
 
 fn run(ctx: &Ctx) {
-    let n = ctx.share(ctx.tier.pick(800_000, 10_000_000));
+    let n = ctx.share(ctx.tier.pick(800_000, 40_000_000));
     ctx.run_cases("forward", n, forward_strategy(), check_forward);
     // BTOR2 constants from candidate strings: whatever the validating constructors accept must
     // round-trip.
-    let n = ctx.share(ctx.tier.pick(100_000, 1_000_000));
+    let n = ctx.share(ctx.tier.pick(100_000, 4_000_000));
     let strat = proptest::collection::vec(crate::gen::bline_candidate_const_strategy(), 1..4).prop_map(|lines| Forward {
         spec: Spec {
             parser: ParserId::Btor2,
@@ -505,9 +505,9 @@ fn run(ctx: &Ctx) {
         writer: None,
     });
     ctx.run_cases("forward-constructor-candidates", n, strat, check_forward);
-    let n = ctx.share(ctx.tier.pick(40_000, 400_000));
+    let n = ctx.share(ctx.tier.pick(40_000, 2_000_000));
     ctx.run_cases("forward-huge-binary", n, huge_binary_strategy(), check_forward);
-    let n = ctx.share(ctx.tier.pick(500_000, 6_000_000));
+    let n = ctx.share(ctx.tier.pick(500_000, 24_000_000));
     let parsers = vec![
         ParserId::Cnf,
         ParserId::Wcnf,
